@@ -1,3 +1,132 @@
 import Cppcms.Common
-/-! Line-protocol driver for C03 (stub: model not written yet). -/
-def main : IO Unit := Cppcms.lineLoop () (fun s _ => (s, "unimplemented"))
+import Cppcms.C03.Model
+import Cppcms.C03.Spec
+/-!
+Line-protocol driver for C03.
+
+* case line `<proto> <mode> <opts> <script> <sched>` → the model's prediction
+  `<wire> <cache copy> <deflater trace>` (for cases compressed by the real zlib the first two are `*`:
+  the compressed bytes are zlib's, the model predicts the calls made to it);
+* `J <case> <wire> <cache> <gunzip>` → the property predicate on bytes captured from the real server
+  (`1`, or `0:<reason>`), using only `Spec` definitions for the framing;
+* `D <proto> <wire>` → `<head> <body>` as the `Spec` de-framer sees them (cross-check of the harness' own decoder).
+
+Arguments: gzip.buffer, service.output_buffer_size, service.async_output_buffer_size (as given to the harness).
+-/
+open Cppcms Cppcms.C03
+
+def flushLetter : Flush → String
+  | .noFlush => "n" | .syncFlush => "s" | .finish => "e"
+
+def ztrace (r : Resp) : String :=
+  match r.gz with
+  | none => "-"
+  | some g => if g.fed.isEmpty then "-" else String.join (g.fed.map fun (i, f) => s!"{flushLetter f}{i.length}.")
+
+def deframe (p : Proto) (wire : Bytes) : Option (Bytes × Bytes) :=
+  match p with
+  | .scgi => Spec.deScgi wire
+  | .fcgi => Spec.deFcgi 1 wire
+  | .http _ _ => Spec.deHttp wire
+
+/-- ops that make the response request its stream (headers are fixed from then on) -/
+def Cppcms.C03.Op.startsOutput : Op → Bool
+  | .write _ _ | .putc _ _ | .lit _ | .out | .flush | .fetchPage _ | .storePage _ => true
+  | _ => false
+
+def headerOps (script : List Op) : List Op := script.takeWhile (!·.startsOutput)
+
+def countLine (ls : List Bytes) (l : Bytes) : Nat := (ls.filter (· == l)).length
+
+/-- expected header lines (name, value) set through the API before the stream was requested, as the
+response must carry them; `Status` goes to the status line on HTTP -/
+def expectedHeaders (ops : List Op) : Headers :=
+  ops.foldl (fun h op => match op with
+    | .setHeader n v => h.set n v
+    | .addHeader n v => h.add n v
+    | .cookie n v => h.addRaw (b Gen.cookiePrefix ++ n ++ [61] ++ v ++ b Gen.cookieSuffix)
+    | .contentLength n => h.set sContentLengthName (decDigits n)
+    | .status n => h.set sStatus (decDigits n ++ [32] ++ statusText n)
+    | _ => h) (({} : Headers).set sContentType sTextHtml)
+
+def judge (cs : Case) (wire : Bytes) (cache : Option Bytes) (gun : Option Bytes) (cacheHit : Bool) : String :=
+  match deframe cs.proto wire with
+  | none => "0:not-framed"
+  | some (head, body) =>
+    let payload := (cs.script.map Op.payload).flatten
+    let ls := Spec.lines head
+    -- expected application bytes and header lines
+    let exp : Option (Bytes × List Bytes × Option Bytes) :=
+      if cs.mode.isRaw then
+        match Spec.splitHead payload with
+        | none => none
+        | some (rawHead, rest) =>
+          let h := ((Spec.lines rawHead).filter (!·.isEmpty)).foldl rawAddHeader ({} : Headers)
+          some (rest, (h.map.filter (fun kv => !ieq kv.1 sStatus)).map (fun kv => kv.1 ++ [58, 32] ++ kv.2) ++ h.added,
+                (mapFind sStatus h.map).map (·.2))
+      else
+        let h := expectedHeaders (headerOps cs.script)
+        some (payload, (h.map.filter (fun kv => !ieq kv.1 sStatus)).map (fun kv => kv.1 ++ [58, 32] ++ kv.2) ++ h.added,
+              (mapFind sStatus h.map).map (·.2))
+    match exp with
+    | none => "0:script-has-no-raw-header-block"
+    | some (app, hlines, status) =>
+      let encoded := (Spec.fieldValues Spec.sContentEncoding ls).any (Spec.lower · == Spec.sChunked.take 0 ++ [103,122,105,112])
+      let bodyOk : Bool :=
+        if cacheHit then true      -- a page served from the cache is judged against the stored page by the check script
+        else if encoded then
+          if cs.zstub then Spec.deStub body == some app
+          else gun == some app
+        else body == app
+      if !bodyOk then "0:body-differs-from-application-bytes"
+      else
+        let isHttp := match cs.proto with | .http _ _ => true | _ => false
+        -- every header/cookie exactly once; on HTTP the status is in the status line, elsewhere a Status header
+        let missing := hlines.filter fun l => countLine ls l != countLine hlines l
+        let statusOk : Bool := match status with
+          | none => true
+          | some v => if isHttp then (ls.headD []).drop 9 == v else countLine ls (sStatus ++ [58, 32] ++ v) == 1
+        if !missing.isEmpty then "0:header-missing-or-repeated"
+        else if !statusOk then "0:status"
+        else if (ls.filter (·.isEmpty)).length != 1 then "0:header-block-not-terminated-once"
+        else match cache with
+          | some c => if c == body then "1" else "0:cache-copy-differs-from-sent-page"
+          | none => "1"
+
+def parseOptHex (s : String) : Option (Option Bytes) :=
+  if s == "none" then some none else (parseHex s).map some
+
+def step (cfg : Config) (cache : PageCache) (line : String) : PageCache × String :=
+  match words line with
+  | "J" :: p :: m :: o :: sc :: sd :: wire :: cch :: gun :: hit :: [] =>
+    match parseCase [p, m, o, sc, sd], parseHex wire, parseOptHex cch, parseOptHex gun with
+    | some cs, some wire, some cch, some gun => (cache, judge cs wire cch gun (hit == "1"))
+    | _, _, _, _ => (cache, "bad-op")
+  | ["D", p, wire] =>
+    match parseCase [p, "normal", "-", "-", "-"], parseHex wire with
+    | some cs, some wire =>
+      (cache, match deframe cs.proto wire with
+        | some (h, bd) => s!"{toHex h} {toHex bd}"
+        | none => "none")
+    | _, _ => (cache, "bad-op")
+  | w =>
+    match parseCase w with
+    | none => (cache, "bad-op")
+    | some cs =>
+      let x := runCase cfg cache cs
+      let real := cs.gz && !cs.zstub && x.resp.gz.isSome
+      let hitZ := false
+      let wire := if real || hitZ then "*" else toHex x.resp.wire.conn.wire
+      let cch := match x.cacheCopy with
+        | none => "none"
+        | some c => if real then "*" else toHex c
+      let note := (if x.resp.wire.violated then "violated" else "") ++
+        (if !x.resp.wire.conn.backlog.isEmpty then "undrained" else "")
+      (x.cache, s!"{wire} {cch} {ztrace x.resp} {if note.isEmpty then "-" else note}")
+
+def main (args : List String) : IO Unit := do
+  let num (i : Nat) (d : Int) : Int := match args[i]? with
+    | some s => s.toInt?.getD d
+    | none => d
+  let cfg : Config := { gzipBuffer := num 0 (-1), outputBuffer := (num 1 16384).toNat, asyncOutputBuffer := (num 2 1024).toNat }
+  lineLoop ([] : PageCache) (step cfg)
